@@ -199,7 +199,7 @@ func runMeta(c *mon.Case) {
 	rows := genRows(r, 6, 40)
 	L := len(rows[0])
 	o := genOpts(r, L, true)
-	rel := []string{"unit-weights", "col-permutation", "replication", "revcomp", "row-permutation", "raw-scaling"}[r.Intn(6)]
+	rel := []string{"unit-weights", "col-permutation", "replication", "revcomp", "row-permutation", "raw-scaling", "ranges-vs-full"}[r.Intn(7)]
 	if o.GapMut == 1 && (rel == "col-permutation" || rel == "replication" || rel == "raw-scaling") {
 		rel = "revcomp" // the internal-gap mode depends on column order by definition
 	}
@@ -261,6 +261,42 @@ func runMeta(c *mon.Case) {
 		c.Count("model-object:fresh")
 	}
 	switch rel {
+	case "ranges-vs-full":
+		// two ranges of sequences (with the weights of the case): the cells computed are those of the full matrix
+		n := len(rows)
+		a, cc := r.Intn(n), r.Intn(n)
+		b, d := r.Range(a, n-1), r.Range(cc, n-1)
+		var m2 [][]float64
+		var err error
+		if reuse {
+			m2, err = dna.DistMatrix(mkAl(rows), o.Weights, mkModel(o), a, b, cc, d, o.Gamma, o.Alpha, r.PickInt([]int{1, 3}))
+		} else {
+			m2, err = dna.DistMatrix(mkAl(rows), o.Weights, mkModel(o), a, b, cc, d, o.Gamma, o.Alpha, 1)
+		}
+		if err != nil {
+			c.Failf("unexpected-error", "ranges %d:%d %d:%d: %v", a, b, cc, d, err)
+			return
+		}
+		if len(m2) != n {
+			return // a sub-matrix layout is C07's business
+		}
+		for i := a; i <= b; i++ {
+			for j := cc; j <= d; j++ {
+				if i == j {
+					continue
+				}
+				x, y := m2[i][j], base[i][j]
+				// an undefined pair is replaced by twice the largest defined distance among the cells COMPUTED: its value
+				// legitimately differs between the two matrices
+				if pr := ref.NtDistPair(rows, i, j, o, ref.Reading{RmGapsStrict: true, FreqWithGaps: true}); !pr.Defined || math.IsNaN(y) || math.IsInf(y, 0) {
+					continue
+				}
+				if math.IsNaN(x) || !ref.Close(x, y, 1e-9, 1e-12) {
+					fail(fmt.Sprintf("with --range1 %d:%d --range2 %d:%d entry (%d,%d) is %v, %v in the full matrix", a, b, cc, d, i, j, x, y), rows, o)
+					return
+				}
+			}
+		}
 	case "unit-weights":
 		o2 := o
 		if o.Weights == nil {
